@@ -882,7 +882,8 @@ class StoryMove(MosFile):
         """
         Print an outline of the key file contents
         """
-        print("MOVE STORY:", self.source_story.id)
+        source_story = self.source_story
+        print("MOVE STORY:", source_story.id if source_story is not None else None)
 
 
 class ItemMoveMultiple(MosFile):
@@ -1226,7 +1227,7 @@ class RunningOrderReplace(RunningOrder):
         """
         print("REPLACE RO:")
         for tag in self.base_tag:
-            if tag.text.strip():
+            if tag.text and tag.text.strip():
                 print("", tag.tag + ":", tag.text.strip())
 
 
@@ -1720,7 +1721,7 @@ class EAItemInsert(ElementAction):
         Print an outline of the key file contents
         """
         print("IN STORY:", self.story.id)
-        print("  BEFORE ITEM:", self.story.id)
+        print("  BEFORE ITEM:", self.item.id)
         for item in self.items:
             print("    INSERT ITEM:", item.id)
 
